@@ -6,6 +6,7 @@
 package plugsim
 
 import (
+	"encoding/json"
 	"fmt"
 	"strings"
 
@@ -24,8 +25,8 @@ import (
 type Engine struct{ tier string }
 
 func New(tier string) kernel.Engine { return &Engine{tier: tier} }
-func (e *Engine) Name() string       { return "plugsim" }
-func (e *Engine) Close()             {}
+func (e *Engine) Name() string      { return "plugsim" }
+func (e *Engine) Close()            {}
 
 // ---- recorded history ----------------------------------------------------------
 
@@ -107,6 +108,9 @@ type install struct {
 	// specific: a re-entering party may call the public parse function for the current token's kind
 	// (ParseFunctionExpression, ParseGroupedExpression, ...) instead of ParsePrefixExpression
 	specific bool
+	// stmtReenter (C16 only): a statement party may parse its step through the public ParseStatement()
+	// (a plugin that parses a body itself) instead of calling next()
+	stmtReenter bool
 	// bailout (C16 only): one nested statement-interceptor invocation panics, the outermost one recovers
 	bailout bool
 	// subParse: parties occasionally run an independent nested parser before calling next()
@@ -154,6 +158,7 @@ func drawInstall(ch *kernel.Chooser, forC16 bool) install {
 	in.subParse = ch.Bool(1, 4)
 	in.specific = ch.Bool(1, 3)
 	in.bailout = forC16 && ch.Bool(1, 6)
+	in.stmtReenter = forC16 && ch.Bool(1, 4)
 	in.builds = 1 + ch.Weighted(5, 3, 2)
 	in.lateAdds = make([]byte, in.builds)
 	for b := 1; b < in.builds; b++ {
@@ -171,17 +176,18 @@ func (in install) String() string {
 // installation: one pair of builders with the simulated parties installed so far.
 // Parties can be added later (between two Build calls); actions are drawn from ch at invocation time.
 type installation struct {
-	lb         *lexer.Builder
-	pb         *parser.Builder
-	in         *install
-	m          xutil.Mode
-	ch         *kernel.Chooser
-	r          *recorder
-	st         *kernel.Stats
-	ti, si, ei int
-	exprDepth  int
-	stmtDepth  int
-	bailed     bool // a bailout happened during the current parse
+	lb            *lexer.Builder
+	pb            *parser.Builder
+	in            *install
+	m             xutil.Mode
+	ch            *kernel.Chooser
+	r             *recorder
+	st            *kernel.Stats
+	ti, si, ei    int
+	exprDepth     int
+	stmtDepth     int
+	bailed        bool // a bailout happened during the current parse
+	inStmtReenter bool
 }
 
 var oddPrefixes = []string{"\xEF\xBB\xBF", "\xEF\xBB\xBF// c\n", "\uFEFF\n", "#!/usr/bin/env xjs\n", "\x00", "\u200b", "\u00a0", "\r\n", "\t\v\f ", "/**/", "<!-- x\n", "\xFF\xFE", "\u2028"}
@@ -334,7 +340,19 @@ func (x *installation) add(k byte, via bool) {
 					x.nestedParse()
 				}
 				r.add('S', idx, 'n', ord, false)
-				s := next()
+				var s ast.Statement
+				if in.stmtReenter && !x.inStmtReenter && ch.Bool(1, 6) {
+					// the whole chain runs again, nested, for this step; this party passes through the second time
+					x.inStmtReenter = true
+					st.Inc("probe.statement_parsed_through_public_ParseStatement")
+					if p.IsInFunction() {
+						st.Inc("probe.public_ParseStatement_inside_function_body")
+					}
+					s = p.ParseStatement()
+					x.inStmtReenter = false
+				} else {
+					s = next()
+				}
 				r.add('S', idx, 'x', ord, false)
 				if idx == 0 {
 					r.stmtRet = append(r.stmtRet, stmtRet{entry: entry, node: s})
@@ -612,11 +630,16 @@ func observe(pb *parser.Builder, text string, r *recorder) outcome {
 		} else {
 			out.compact = c.Code
 		}
-		c, pan, _ = xutil.Compile(xutil.CompilerConfig{Pretty: true, Indent: 2, Semi: true}, o.Program)
+		// "output" includes the source map: the pretty configuration is compiled with it
+		c, pan, _ = xutil.Compile(xutil.CompilerConfig{Pretty: true, Indent: 2, Semi: true, SourceMap: true}, o.Program)
 		if pan != nil {
 			out.pretty = fmt.Sprintf("PANIC %v", pan)
 		} else {
 			out.pretty = c.Code
+			if c.SourceMap != nil {
+				b, _ := json.Marshal(c.SourceMap)
+				out.pretty += "\n--map--\n" + string(b)
+			}
 		}
 	}
 	return out
@@ -775,7 +798,7 @@ func (e *Engine) Run(prop string, ch *kernel.Chooser, st *kernel.Stats) kernel.R
 			*rec = recorder{posIndex: posIndex, nTok: len(toks)}
 			st.Inc("probe.builder_reused_for_another_parser")
 		}
-		inst.bailed, inst.stmtDepth, inst.exprDepth = false, 0, 0
+		inst.bailed, inst.stmtDepth, inst.exprDepth, inst.inStmtReenter = false, 0, 0, false
 		lexCalls := hooks.Count(hooks.LexerNextToken)
 		out := observe(inst.pb, text, rec)
 		lexCalls = hooks.Count(hooks.LexerNextToken) - lexCalls
@@ -1114,7 +1137,7 @@ func init() {
 			}
 			return kernel.TierSpec{Runs: 200_000, WallSeconds: 45, ShrinkSecs: 20, RunBudgetMs: 10000}
 		},
-		Rule: "each run = one seeded program (valid, or with one injected fault) x one parser mode x one seeded installation of 0..8 token, statement and expression interceptors (direct or via Install, seeded registration order) x a seeded per-invocation action schedule (pass / re-enter / run an independent nested parser first) x 1..3 parsers built one after the other from the same builder, with parties possibly installed between two builds; every parser is compared with the zero-interceptor run and a one-observer run; C16 additionally checks the final context state on every enumerated fault x 4 modes; distinct = distinct (input text, installation, mode, history length); non-trivial = at least one interceptor and at least 4 tokens",
+		Rule:      "each run = one seeded program (valid, or with one injected fault) x one parser mode x one seeded installation of 0..8 token, statement and expression interceptors (direct or via Install, seeded registration order) x a seeded per-invocation action schedule (pass / re-enter / run an independent nested parser first) x 1..3 parsers built one after the other from the same builder, with parties possibly installed between two builds; every parser is compared with the zero-interceptor run and a one-observer run; C16 additionally checks the final context state on every enumerated fault x 4 modes; distinct = distinct (input text, installation, mode, history length); non-trivial = at least one interceptor and at least 4 tokens",
 		Real:      []string{"lexer (interceptor chain)", "parser (interceptor chains, context stack, all modes)", "ast", "compiler (compact + one pretty configuration, for the output clause)"},
 		Simulated: []string{"all plugin parties: token/statement/expression interceptors and their per-invocation decisions", "the installing plugins (Install)", "the faulty storage medium (injected corruption of the input)"},
 		Oracles:   []string{"zero-interceptor run of the same input (transparency / re-entrancy)", "recorded callback history checked for nesting, order and exactly-once", "generator ground truth: statement starts, token positions, nesting context of every token"},
@@ -1125,7 +1148,7 @@ func init() {
 		},
 		RequiredProbes: map[string][]string{
 			"C04": {"probe.reentrant_invocations", "probe.reentrant_at_depth_ge3", "probe.reentrant_party_before_passthrough_party", "probe.installed_via_plugin", "probe.malformed_with_errors_under_many_interceptors", "probe.eight_of_each_kind", "probe.builder_reused_for_another_parser", "probe.party_installed_between_two_builds", "probe.nested_parser_run_inside_interceptor", "probe.reentrant_via_specific_public_parse_function", "probe.plugin_uses_captured_builder", "probe.plugin_installs_nested_plugin", "fault.odd_prefix"},
-			"C16": {"probe.depth_ge5", "probe.function_body_direct", "probe.funcexpr_in_call_argument", "probe.funcexpr_in_object_value", "probe.funcexpr_in_condition", "probe.final_state_checked_on_erroring_input", "probe.nested_parser_run_inside_interceptor", "probe.builder_reused_for_another_parser", "probe.bailout_recovered_by_outer_interceptor", "probe.bailout_thrown_inside_function_body", "probe.reentrant_via_ParseFunctionExpression", "probe.context_stack_depth_ge40"},
+			"C16": {"probe.depth_ge5", "probe.function_body_direct", "probe.funcexpr_in_call_argument", "probe.funcexpr_in_object_value", "probe.funcexpr_in_condition", "probe.final_state_checked_on_erroring_input", "probe.nested_parser_run_inside_interceptor", "probe.builder_reused_for_another_parser", "probe.bailout_recovered_by_outer_interceptor", "probe.bailout_thrown_inside_function_body", "probe.reentrant_via_ParseFunctionExpression", "probe.context_stack_depth_ge40", "probe.public_ParseStatement_inside_function_body"},
 		},
 	})
 }
